@@ -47,6 +47,14 @@ def run(rep, tier):
     dimension_tables(rep, F)
     from . import c05
     c05.winding_table(rep, F, rule="R1.7")
+    # PreparedGeometry is a Relate operand too: the graph it hands to the pipeline must be a fresh, faithful copy (rules shared with C17)
+    from . import c17
+    from ..report import Alias
+    rep.rule("R1.12", "prepared operands: geometry_graph() returns clone_for_arg_index of the cached graph with every edge re-allocated, the self-noding flag carried over, labels swapped iff the operand index changes, and the cached bounding box taken from the geometry itself")
+    al = Alias(rep, "R1.12", " - relate() with a PreparedGeometry operand then differs from relate() on the plain geometry")
+    c17.freshness(al, F)
+    c17.typestate(al, F)
+    c17.cached_fields(al, F)
     from . import c01_state
     c01_state.topology_position(rep, F)
     c01_state.label(rep, F)
